@@ -412,7 +412,7 @@ func main() {
 	os.MkdirAll(work, 0755)
 	defer os.RemoveAll(work)
 	c := &Ctx{Prop: prop, Tier: tier, Seed: seed, Work: work, Start: time.Now(), Known: loadKnown()}
-	c.Ev = Evidence{PropertyID: prop, Tier: tier, Seed: seed, Level: "model_checking", Coverage: map[string]interface{}{
+	c.Ev = Evidence{PropertyID: prop, Tier: tier, Seed: seed, Level: "model_checking", Assumptions: []string{}, Coverage: map[string]interface{}{
 		"states": int64(0), "transitions": int64(0), "traces_validated_against_impl": int64(0), "samples": []interface{}{}}}
 	c.Pool = &Pool{N: runtime.NumCPU(), WorkDir: work, Timeout: 90 * time.Second}
 	code := 0
